@@ -246,6 +246,11 @@ def make_timer(hook):
             return self.fire
 
         @property
+        def is_running(self):
+            # an injected expiry (fire) stands for a running timer that ran out
+            return self.running or self.fire
+
+        @property
         def remaining(self):
             return 30.0
 
